@@ -31,7 +31,7 @@
                              attributeSlice.Initialize            → `newPos` (values are stored as given: NOT trimmed)
                              attributeSlice.Get (+ constantValue, after the fix "Get of a constant attribute …") → `get`
                              valueAt                              → `valueAt`
-                             Equals                               → `equals`
+                             Equals (+ equalityPositions, equalityIncludesType) → `equals`, `eqPositions`, `includesType`
                              InitHash / makeValueHash             → `initHash`
 
   A resolved type is the list of its levels, the type itself first, then its parent, grand-parent …  (`OType`): the parent
@@ -337,10 +337,15 @@ def posAttrs (t : OType) : List Attr :=
 
 def requiredCount (t : OType) : Nat := ((posAttrs t).filter (fun a => !a.optional)).length
 
+/-- the keys of a StringHash filled in list order: every name once, at its first occurrence (EqualityAttributes) -/
+def dedup : List String → List String
+  | [] => []
+  | x :: xs => x :: (dedup xs).filter (fun y => y != x)
+
 def attrInfo (t : OType) : AttrInfo :=
   let attrs := posAttrs t
   { attrs := attrs, required := requiredCount t,
-    eqIdx := if equalityDeclared t then some ((equalityAttributes t).filterMap (nameToPos attrs)) else none }
+    eqIdx := if equalityDeclared t then some ((dedup (equalityAttributes t)).filterMap (nameToPos attrs)) else none }
 
 /-! ### instances -/
 
@@ -471,18 +476,44 @@ def allOk (f : Nat → Except Code Bool) : List Nat → Except Code Bool
     | .ok false => .ok false
     | .ok true => allOk f is
 
-/-- attributeSlice.Equals: the receiver's layout is used for both operands -/
+/-- objectvalue.go equalityPositions: the positions `Equals` compares -/
+def eqPositions (t : OType) : List Nat :=
+  match (attrInfo t).eqIdx with
+  | some l => l
+  | none => List.range (posAttrs t).length
+
+/-- `equality_include_type` of the type itself (absent = true) -/
+def includesType : OType → Bool
+  | [] => true
+  | l :: _ => l.includeType
+
+def cmpValues (a b : Except Code Val) : Except Code Bool :=
+  match a, b with
+  | .ok v, .ok v' => .ok (v == v')
+  | .error c, _ => .error c
+  | _, .error c => .error c
+
+/-- one compared position `i` of the receiver against an operand of a different type: the attribute is looked up by NAME
+    in the other layout and must be compared by the other type too -/
+def crossCmp (attrs attrs' : List Attr) (pos' : List Nat) (vs vs' : List Val) (i : Nat) : Except Code Bool :=
+  match attrs[i]? with
+  | none => .error .fault                      -- ai.Attributes()[i]: index out of range
+  | some a =>
+    match nameToPos attrs' a.name with
+    | none => .ok false
+    | some j =>
+      if pos'.contains j then cmpValues (valueAt attrs vs i) (valueAt attrs' vs' j) else .ok false
+
+/-- attributeSlice.Equals (after the fix "equality_include_type => false was ignored").  Equal types: the receiver's layout
+    is used for both operands.  Different types: equal only when both say `equality_include_type => false`, both compare
+    the same number of attributes, and every attribute the receiver compares is compared by the other type too and has an
+    equal value there. -/
 def equals (o o' : Obj) : Except Code Bool :=
+  let attrs := posAttrs o.typ
   if tyEq o.typ o'.typ then
-    let ai := attrInfo o.typ
-    let positions := match ai.eqIdx with
-      | some l => l
-      | none => List.range ai.attrs.length
-    allOk (fun i =>
-      match valueAt ai.attrs o.values i, valueAt ai.attrs o'.values i with
-      | .ok v, .ok v' => .ok (v == v')
-      | .error c, _ => .error c
-      | _, .error c => .error c) positions
-  else .ok false
+    allOk (fun i => cmpValues (valueAt attrs o.values i) (valueAt attrs o'.values i)) (eqPositions o.typ)
+  else if includesType o.typ || includesType o'.typ then .ok false
+  else if (eqPositions o.typ).length != (eqPositions o'.typ).length then .ok false
+  else allOk (crossCmp attrs (posAttrs o'.typ) (eqPositions o'.typ) o.values o'.values) (eqPositions o.typ)
 
 end Pcore.Object
